@@ -1,4 +1,4 @@
-import IwModel.Lemmas.Kv
+import IwModel.Lemmas.KvApi
 /-! # C01 — the KV store behaves as an ordered map
 
 Property theorems only; helper lemmas live in `IwModel/Lemmas/Kv.lean`.
@@ -108,6 +108,77 @@ theorem history_refines_from (st : StrictTotal gt) (ops : List (Op K V)) (d : Db
 
 end
 
+/-! ### 4. API layer -/
+
+/-- `iwkv_puth` that reports anything but ok — unknown database, empty key, read-only store, key of
+    the wrong size or out of range, `IWKV_NO_OVERWRITE` on a present key, an increment that cannot
+    be applied, a put handler that refuses — returns the store it was given, unchanged. -/
+theorem put_error_preserves_state (s : KvApi.Store) (id : Nat) (key : Bytes) (comp : Nat) (val : Bytes)
+    (fl lvl ph : Nat) (h : (KvApi.putR s id key comp val fl lvl ph).2.isOk = false) :
+    (KvApi.putR s id key comp val fl lvl ph).1 = s := by
+  rcases KvApi.putR_cases s id key comp val fl lvl ph with h1 | ⟨d, _, h2⟩
+  · exact h1.1
+  · rw [h] at h2; cases h2
+
+/-- the same on the canonical result line: a line that does not begin with `put ok` means the
+    store is unchanged (the line begins with `put ok` exactly for the ok outcome) -/
+theorem put_line_error_preserves_state (s : KvApi.Store) (id : Nat) (key : Bytes) (comp : Nat) (val : Bytes)
+    (fl lvl ph : Nat) (h : (KvApi.put s id key comp val fl lvl ph).2.toList.take 6 ≠ "put ok".toList) :
+    (KvApi.put s id key comp val fl lvl ph).1 = s := by
+  simp only [KvApi.put] at h ⊢
+  apply put_error_preserves_state
+  cases hk : (KvApi.putR s id key comp val fl lvl ph).2.isOk with
+  | false => rfl
+  | true => exact absurd ((KvApi.putLine_ok_iff ph _).2 hk) h
+
+/-- a put on database `id` never changes another database `j` (contents, flags, metadata, cursors) -/
+theorem put_db_frame (s : KvApi.Store) (id j : Nat) (hne : id ≠ j) (key : Bytes) (comp : Nat) (val : Bytes)
+    (fl lvl ph : Nat) : KvApi.getDb (KvApi.put s id key comp val fl lvl ph).1 j = KvApi.getDb s j := by
+  simp only [KvApi.put]
+  rcases KvApi.putR_cases s id key comp val fl lvl ph with h1 | ⟨d, h1, _⟩
+  · rw [h1.1]
+  · rw [h1, KvApi.getDb_setDb_ne s id j d (Ne.symm hne)]
+
+/-- a delete on database `id` never changes another database -/
+theorem del_db_frame (s : KvApi.Store) (id j : Nat) (hne : id ≠ j) (key : Bytes) (comp : Nat) :
+    KvApi.getDb (KvApi.del s id key comp).1 j = KvApi.getDb s j := by
+  rcases KvApi.del_cases s id key comp with h1 | ⟨d, h1⟩
+  · rw [h1]
+  · rw [h1, KvApi.getDb_setDb_ne s id j d (Ne.symm hne)]
+
+/-- setting the metadata of database `id` never changes another database -/
+theorem metaSet_db_frame (s : KvApi.Store) (id j : Nat) (hne : id ≠ j) (m : Bytes) :
+    KvApi.getDb (KvApi.metaSet s id m).1 j = KvApi.getDb s j := by
+  rcases KvApi.metaSet_cases s id m with h1 | ⟨d, h1⟩
+  · rw [h1]
+  · rw [h1, KvApi.getDb_setDb_ne s id j d (Ne.symm hne)]
+
+/-- effective-key round trip, byte-string keys (plain and real-number modes): the caller gets back the
+    key bytes as passed, and the compound part iff the database has compound keys -/
+theorem key_roundtrip_plain (flags : Nat) (key : Bytes) (comp : Nat) (ek : KvApi.EKey)
+    (hm : KvApi.modeOf flags ≠ .vnum) (h : KvApi.toEffective flags key comp = .ok ek) :
+    KvApi.unpack flags ek = (key, if KvApi.isCompound flags then comp else 0) := by
+  simp only [KvApi.toEffective, hm, if_false] at h
+  cases h
+  simp only [KvApi.unpack, hm, if_false]
+
+/-- effective-key round trip, integer mode, 8-byte key below 2^63: stored as a vnum, handed back as
+    the same 8 little-endian bytes -/
+theorem key_roundtrip_vnum8 (flags : Nat) (key : Bytes) (comp : Nat) (hm : KvApi.modeOf flags = .vnum)
+    (hl : key.length = 8) (hw : Bytes.wf key) (hn : KvApi.leVal key < 2 ^ 63) :
+    ∃ ek, KvApi.toEffective flags key comp = .ok ek ∧
+      KvApi.unpack flags ek = (key, if KvApi.isCompound flags then comp else 0) := by
+  refine ⟨_, by simp only [KvApi.toEffective, hm, hl, hn, if_true]; rfl, ?_⟩
+  simp only [KvApi.unpack, hm, if_true, KvApi.decBody_enc, KvApi.leBytes_leVal8 key hl hw]
+
+/-- integer mode, 4-byte key below 2^31: handed back widened to 8 little-endian bytes -/
+theorem key_roundtrip_vnum4 (flags : Nat) (key : Bytes) (comp : Nat) (hm : KvApi.modeOf flags = .vnum)
+    (hl : key.length = 4) (hw : Bytes.wf key) (hn : KvApi.leVal key < 2 ^ 31) :
+    ∃ ek, KvApi.toEffective flags key comp = .ok ek ∧
+      KvApi.unpack flags ek = (key ++ [0, 0, 0, 0], if KvApi.isCompound flags then comp else 0) := by
+  refine ⟨_, by simp only [KvApi.toEffective, hm, hl, hn, if_true]; rfl, ?_⟩
+  simp only [KvApi.unpack, hm, if_true, KvApi.decBody_enc, KvApi.leBytes_leVal4 key hl hw]
+
 /-! ### the hypotheses are satisfiable -/
 
 example : Kv.get (fun a b : Nat => decide (a > b)) exDb 7 = some "g" ∧
@@ -115,5 +186,18 @@ example : Kv.get (fun a b : Nat => decide (a > b)) exDb 7 = some "g" ∧
   have h := put_refines natGt_strictTotal exDb exDb_inv 5 "e" 3
   refine ⟨by rw [get_refines natGt_strictTotal exDb exDb_inv]; decide, ?_⟩
   rw [h.1]; decide
+
+/-- a store with two databases; database 1 holds key `07` -/
+def exStore : KvApi.Store :=
+  ⟨[(1, ⟨0, [], ⟨[⟨0, [(([7], 0), [1])]⟩], []⟩⟩), (2, ⟨0, [], ⟨[], []⟩⟩)], [], false⟩
+
+example : (KvApi.putR exStore 1 [7] 0 [2] Gen.IWKV_NO_OVERWRITE 0 0).2.isOk = false ∧
+    (KvApi.putR exStore 1 [7] 0 [2] 0 0 2).2.isOk = false ∧
+    (KvApi.putR exStore 1 [8] 0 [2] 0 0 0).2.isOk = true := by decide
+
+example : ∃ ek, KvApi.toEffective Gen.IWDB_VNUM64_KEYS [1, 2, 0, 0, 0, 0, 0, 0] 0 = .ok ek ∧
+    KvApi.unpack Gen.IWDB_VNUM64_KEYS ek = ([1, 2, 0, 0, 0, 0, 0, 0], 0) :=
+  key_roundtrip_vnum8 Gen.IWDB_VNUM64_KEYS [1, 2, 0, 0, 0, 0, 0, 0] 0 (by decide) rfl
+    (by intro b hb; simp at hb; omega) (by decide)
 
 end IwModel.C01
